@@ -9,6 +9,7 @@ import (
 	"os"
 	"path/filepath"
 	"strings"
+	"sync"
 )
 
 // Ctx carries everything one harness run needs; every random choice derives from Seed.
@@ -111,8 +112,18 @@ type OracleFail struct {
 	Sig    string `json:"signature"` // stable signature matched against known_findings.txt
 }
 
+// lockedSource makes the run's single PRNG usable from the transport's goroutines as well
+type lockedSource struct {
+	mu  sync.Mutex
+	src rand.Source64
+}
+
+func (l *lockedSource) Int63() int64   { l.mu.Lock(); defer l.mu.Unlock(); return l.src.Int63() }
+func (l *lockedSource) Uint64() uint64 { l.mu.Lock(); defer l.mu.Unlock(); return l.src.Uint64() }
+func (l *lockedSource) Seed(s int64)   { l.mu.Lock(); defer l.mu.Unlock(); l.src.Seed(s) }
+
 func newCtx(prop, tier string, seed int64, out string) *Ctx {
-	return &Ctx{Prop: prop, Tier: tier, Seed: seed, Out: out, Rng: rand.New(rand.NewSource(seed)),
+	return &Ctx{Prop: prop, Tier: tier, Seed: seed, Out: out, Rng: rand.New(&lockedSource{src: rand.NewSource(seed).(rand.Source64)}),
 		Sum: &Summary{Property: prop, Distribution: map[string]int{}, seen: map[string]bool{}, nontrivialKey: map[string]bool{}}}
 }
 
